@@ -233,6 +233,7 @@ def _r2(repo: Repo, ctx) -> None:
                    repo.classes[cls_q].loc if hasattr(
                        repo.classes[cls_q], 'loc') else '',
                    sample=', '.join(found)[:80])
+    pointer_release_rule(repo, ctx, 'C10.R2')
     # SET TYPE releases the old target
     sp = repo.cls('edb.schema.pointers.SetPointerType')
     ab = sp.methods.get('_alter_begin')
@@ -257,6 +258,49 @@ def _r2(repo: Repo, ctx) -> None:
            'dropping a collection type does not release its element types '
            '(nested collections stay behind)', db.loc if db else '',
            sample='for el in get_subtypes(): el.as_type_delete_if_unused()')
+
+
+def pointer_release_rule(repo: Repo, ctx, rule: str) -> None:
+    # the release of a dropped pointer's target does not depend on how the
+    # pointer came to be (owned / inherited / abstract): an inherited copy is
+    # deleted after its ancestor, whose own release found the type still in
+    # use -- the copy's release is the one that removes it
+    from ..absint import Facts, must_pass
+    dp = repo.cls('edb.schema.pointers.DeletePointer').methods.get(
+        '_delete_begin')
+    if dp is None:
+        raise AnalysisError('C10.R2: DeletePointer._delete_begin not found')
+    ctx.saw(dp)
+    gdp = CFG(dp.node)
+    rel = [n.id for n in gdp.nodes if n.kind == 'stmt' and n.ast is not None
+           and any(isinstance(c, ast.Call) and _last(c) == 'add_caused'
+                   for c in ast.walk(n.ast))]
+    tests = [t for t in gdp.nodes if t.kind == 'test'
+             and 'as_type_delete_if_unused' in norm(t.ast)]
+    if not rel or not tests:
+        raise AnalysisError('C10.R2: the target release of DeletePointer.'
+                            '_delete_begin was not recognised')
+    facts = {'context.canonical': False,
+             'self.scls.is_endpoint_pointer(schema)': False}
+    for t in tests:
+        te = t.ast.test if hasattr(t.ast, 'test') else t.ast
+        for cj in (te.values if isinstance(te, ast.BoolOp) else [te]):
+            if isinstance(cj, ast.Compare) and isinstance(
+                    cj.left, ast.NamedExpr) and isinstance(
+                    cj.ops[0], ast.IsNot):
+                facts[norm(cj)] = True
+    F = Facts(facts, dp.node)
+    first = [n.id for n in gdp.nodes if n.kind == 'test'
+             and norm(n.ast) == 'not context.canonical']
+    ok = must_pass(gdp, F, rel, exits=[x for x in first] or None) \
+        if first else must_pass(gdp, F, rel)
+    ctx.ob(rule, 'DeletePointer._delete_begin:release-unconditional',
+           ok, 'dropping a pointer releases its target type only under a '
+           'further condition (ownership, concreteness ...): the inherited '
+           'copy of a dropped collection-typed pointer leaves its array / '
+           'tuple type behind, which a direct migration to the same schema '
+           'does not have', dp.loc,
+           sample='target release under canonical / endpoint tests only')
 
 
 def _r3(repo: Repo, ctx) -> None:
